@@ -70,6 +70,9 @@ type Step struct {
 	Async bool   `json:"async,omitempty"` // do not wait for the op to return before the next step
 	// C16B: the transition whose answer is compared with the device's real state
 	Judged bool `json:"judged,omitempty"`
+	// C16B: response timeout written into the request (0 = the default of the command, 90 s): shorter than
+	// the slow device step, so the core has stopped waiting long before the device is done
+	CmdTimeoutMs int `json:"cmd_timeout_ms,omitempty"`
 	// storm: transition requests with a payload of PayloadKB (arguments map) fired in the background
 	// at these offsets (ms from the step), each through UnmarshalTransition + Transition like any other
 	Offsets   []int `json:"offsets,omitempty"`
@@ -568,8 +571,9 @@ func c16bTemplates() []template {
 		{"direct", "start-slow", "START", []Step{stCONFIGURE}, stSTART},
 	}
 	var ts []template
-	for _, e := range list {
+	for li, e := range list {
 		e := e
+		short := li%2 == 0
 		ts = append(ts, template{e.kind, e.name, "slow-" + e.slow, func(r *rand.Rand, c *Case) {
 			c.Child.TermExit = -1
 			c.Child.SlowOn = e.slow
@@ -577,6 +581,9 @@ func c16bTemplates() []template {
 			c.Child.ReadyAfterMs = u(r, 0, 300)
 			j := e.judged
 			j.Judged = true
+			if short {
+				j.CmdTimeoutMs = 3000 + 500*(c.Idx%7)
+			}
 			c.Steps = []Step{stLAUNCH, await("ready", 1, 15000)}
 			c.Steps = append(c.Steps, e.pre...)
 			c.Steps = append(c.Steps, sleepStep(u(r, 0, 200)), j, Step{Op: "await-quiescent", Ms: 40000}, stKILL)
